@@ -8,7 +8,28 @@ var OAuth = OAuth2Security("oauth2", func() {
 	Scope("api:write", "write")
 })
 
-var _ = API("s3", func() {})
+var BasicAuth = BasicAuthSecurity("basic")
+
+// a requirement at API level and a stricter one at service level
+var _ = API("s3", func() {
+	Security(BasicAuth)
+})
+
+var _ = Service("both", func() {
+	Security(BasicAuth, JWTAuth, func() { Scope("api:read") })
+	Method("guarded", func() {
+		Payload(func() {
+			Username("user", String)
+			Password("pass", String)
+			Token("token", String)
+			Required("user", "pass", "token")
+		})
+		HTTP(func() {
+			GET("/guarded")
+			Header("token:X-Token")
+		})
+	})
+})
 
 // two alternative requirements whose credentials both travel (implicitly) in
 // the Authorization header
